@@ -54,12 +54,13 @@ func TestLockNestingProbe(t *testing.T) {
 		edges = append(edges, strings.TrimPrefix(e[0], "block.zzP.")+"->"+strings.TrimPrefix(e[1], "block.zzP."))
 	}
 	sort.Strings(edges)
-	if got, want := strings.Join(edges, " "), "a->a b->c d->e e->d"; got != want {
+	if got, want := strings.Join(edges, " "), "a->a b->c d->e e->d h->c i->c"; got != want {
 		t.Errorf("lock nesting edges: got %q, want %q", got, want)
 	}
 	for m, want := range map[string][2]bool{ // (on a cycle, lock rows flagged free)
 		"block.zzP.a": {true, false}, "block.zzP.b": {false, true}, "block.zzP.c": {false, true},
 		"block.zzP.d": {true, false}, "block.zzP.e": {true, false}, "block.zzP.f": {false, true}, "block.zzP.g": {false, true},
+		"block.zzP.h": {false, true}, "block.zzP.i": {false, true},
 		"block.Manager.lastStateMtx": {false, true},
 	} {
 		free, known := w.mutexFree[m]
@@ -84,6 +85,15 @@ func TestLockNestingProbe(t *testing.T) {
 	}
 	if !(pos["block.zzP.b"] < pos["block.zzP.c"]) {
 		t.Errorf("lockOrder: b must come before c: %v", w.lockOrder)
+	}
+	// generic helpers: the method call on a type parameter and the func-typed parameter were resolved and followed
+	for k := range w.boundary {
+		if k[1] == "T" || strings.HasPrefix(k[0], "block.zzLast") {
+			t.Errorf("method call on a type parameter left as an unfollowed interface call: %v", k)
+		}
+	}
+	for k := range w.notFollowed {
+		t.Errorf("call not followed: %v", k)
 	}
 	// the emitted module carries the table
 	txt, err := Facts()
